@@ -59,6 +59,9 @@ def setValueAt : PList α → Nat → α → Except Exc (PList α)
     | .ok r' => .ok (q :: r')
     | .error e => .error e
 
+/-- `l[0].getValue()` -/
+def value0 (pl : PList α) : Option α := pl.head?.map (·.p.value)
+
 /-- `AbstractOptimizer::autoParameter` / `ignoreConstraints` (AbstractOptimizer.cpp:273-291),
 `DirectionFunction::autoParameter` / `ignoreConstraints` (DirectionFunction.cpp:58-76) -/
 def applyPolicy (pol : Policy) (l : PList α) : PList α :=
@@ -126,19 +129,19 @@ structure Deriv (α : Type) where
   d1 : Nat → List α → α
   d2 : Nat → List α → α
 
-/-- the objective as a `FunctionInterface`; `cap`: the harness objective throws once more than
-`cap` points have been logged (`none`: no such guard) -/
+/-- the harness objective throws once more than `cap` points have been logged within one call
+(`none`: no such guard) -/
+def capped (cap : Option Nat) (fn : Fn α) : Bool :=
+  match cap with
+  | some c => decide (fn.log.length > c)
+  | none => false
+
+/-- the objective as a `FunctionInterface` -/
 def Fn.iface (obj : List α → α) (D : Deriv α) (cap : Option Nat) : FunI (Fn α) α :=
-  let guard (fn : Fn α) : Bool := match cap with
-    | some c => decide (fn.log.length > c)
-    | none => false
-  { f := fun fn pl =>
-      let r := fn.f obj pl
-      if guard r.1 then .error (.cap, r.1) else .ok r,
+  { f := fun fn pl => if capped cap (fn.f obj pl).1 then .error (.cap, (fn.f obj pl).1) else .ok (fn.f obj pl),
     value := fun fn => fn.value obj,
     setParameters := fun fn pl =>
-      let fn' := fn.setParameters pl
-      if guard fn' then .error (.cap, fn') else .ok fn',
+      if capped cap (fn.setParameters pl) then .error (.cap, fn.setParameters pl) else .ok (fn.setParameters pl),
     getParameters := Fn.params,
     d1 := fun fn k => D.d1 k fn.point,
     d2 := fun fn k => D.d2 k fn.point }
